@@ -381,6 +381,28 @@ struct False1 {
     static bool plain(E const&) { return false; }
 };
 
+// predicates whose result type is int and whose truthy value is NOT 1 (the standard only requires the result to be
+// contextually convertible to bool; an algorithm that adds or compares the raw value is wrong) - added after seeded
+// breakage c06_count_if_sums_truthy (`result += p(*first)`)
+struct TruthyInt1 {
+    static constexpr char const* name = "key!=0 (returns 0/2/4)";
+    int operator()(E const& a) const
+    {
+        arg(a);
+        return a.key * 2;
+    }
+    static bool plain(E const& a) { return a.key != 0; }
+};
+struct TruthyInt2 {
+    static constexpr char const* name = "eq (returns 0/-1)";
+    int operator()(E const& a, E const& b) const
+    {
+        arg(a);
+        arg(b);
+        return a.key == b.key ? -1 : 0;
+    }
+};
+
 template <typename... Ts>
 struct List { };
 template <typename... Ts, typename Fn>
@@ -390,9 +412,9 @@ void for_types(List<Ts...>, Fn&& fn)
 }
 
 using Orders     = List<Less, Greater, Mod2Less>;
-using BinPreds   = List<EqKey, EqMod2, True2, False2, LessAsPred>;
+using BinPreds   = List<EqKey, EqMod2, True2, False2, LessAsPred, TruthyInt2>;
 using EquivPreds = List<EqKey, EqMod2, True2>;
-using UnPreds    = List<IsOne, IsEven, LtTwo, True1, False1>;
+using UnPreds    = List<IsOne, IsEven, LtTwo, True1, False1, TruthyInt1>;
 
 // ------------------------------------------------------------------------------------------
 // iterator wrappers
